@@ -64,6 +64,10 @@ pub enum Call {
     /// documents: interleaved on two threads, or one after the other, each must see its own document
     ReaderRc { second: bool },
     ReaderArc { second: bool },
+    /// the user's reader panics in the middle of an anchored document (caught by the caller)
+    ReaderPanics,
+    /// a `Serialize` impl that serialises another shared graph to a string while the outer one is being written
+    SerNested,
     /// the budget-report callback panics (the panic is caught by the caller, the thread lives on)
     ReportCallbackPanics,
     /// a call with a report callback: the result carries how often it was invoked and with how many events
@@ -85,7 +89,9 @@ pub enum Call {
     NestRecursive { k: u8, inner: Box<Call> },
 }
 
-pub const BASIC: [Call; 48] = [
+pub const BASIC: [Call; 50] = [
+    Call::ReaderPanics,
+    Call::SerNested,
     Call::ReaderRc { second: false },
     Call::ReaderRc { second: true },
     Call::ReaderArc { second: false },
@@ -455,6 +461,51 @@ pub fn run_call(c: &Call) -> String {
             res(guard(|| serde_saphyr::from_reader::<_, ArcDoc>(rd)), |d| {
                 format!("a={} b={} ab={}", d.a.0, d.b.0, std::sync::Arc::ptr_eq(&d.a.0, &d.b.0))
             })
+        }
+        Call::ReaderPanics => {
+            struct PanicAt(std::io::Cursor<&'static [u8]>, usize);
+            impl std::io::Read for PanicAt {
+                fn read(&mut self, buf: &mut [u8]) -> std::io::Result<usize> {
+                    sched::yield_point();
+                    if self.0.position() as usize >= self.1 {
+                        std::panic::panic_any(SimMarker::ProbePanic);
+                    }
+                    let n = buf.len().min(4);
+                    self.0.read(&mut buf[..n])
+                }
+            }
+            let rd = PanicAt(std::io::Cursor::new(b"a: &s shared\nb: *s\nc: &t more\nd: *t\n"), 16);
+            res(guard(|| serde_saphyr::from_reader::<_, RcDoc>(rd)), |d| format!("a={}", d.a.0))
+        }
+        Call::SerNested => {
+            struct Inner;
+            impl Serialize for Inner {
+                fn serialize<S: serde::Serializer>(&self, s: S) -> Result<S::Ok, S::Error> {
+                    let shared = std::rc::Rc::new("inner".to_string());
+                    let v = vec![RcAnchor(shared.clone()), RcAnchor(shared)];
+                    let text = serde_saphyr::to_string(&v).map_err(|e| <S::Error as serde::ser::Error>::custom(e.to_string()))?;
+                    s.serialize_str(&text)
+                }
+            }
+            #[derive(Serialize)]
+            struct Outer {
+                a: RcAnchor<String>,
+                n: Inner,
+                b: RcAnchor<String>,
+                c: RcAnchor<String>,
+            }
+            let s = std::rc::Rc::new("outer".to_string());
+            let o = Outer {
+                a: RcAnchor(s.clone()),
+                n: Inner,
+                b: RcAnchor(s),
+                c: RcAnchor(std::rc::Rc::new("solo".to_string())),
+            };
+            match guard(|| serde_saphyr::to_string(&o)) {
+                Ok(Ok(t)) => t,
+                Ok(Err(e)) => format!("SerErr({e})"),
+                Err(a) => format!("{a:?}"),
+            }
         }
         Call::ReportCallbackPanics => {
             let opts = serde_saphyr::Options::default().with_budget_report(|_r| panic!("report callback panics"));
